@@ -814,6 +814,21 @@ def _decomprehend(st, defs):
     return out
 
 
+def _evaluated_first(test, call):
+    """The call is the first thing the test evaluates, unconditionally."""
+    while True:
+        if test is call:
+            return True
+        if isinstance(test, ast.UnaryOp) and isinstance(test.op, ast.Not):
+            test = test.operand
+        elif isinstance(test, ast.BoolOp):
+            test = test.values[0]
+        elif isinstance(test, ast.Compare):
+            test = test.left
+        else:
+            return False
+
+
 def _expand_stmt(st, defs, cms, owner):
     dc = _decomprehend(st, defs)
     if dc is not None:
@@ -929,6 +944,17 @@ def _expand_stmt(st, defs, cms, owner):
                 res = ast.Constant(value=None)
             st.value = res
             return stmts + [st]
+        if isinstance(st, ast.If) and _evaluated_first(st.test, call):
+            # ``if h(...):`` - the call is what the test evaluates first:
+            # flag = <expansion>; if flag:
+            _COUNTER[0] += 1
+            tmp = '__inl%d' % _COUNTER[0]
+            ex2 = expand(fn, call, tmp)
+            if ex2 is not None and isinstance(
+                    ex2[1], ast.Name) and ex2[1].id == tmp:
+                _replace_child(st, call, ast.Name(id=tmp, ctx=ast.Load()))
+                return ex2[0] + [st]
+            continue
         if not isinstance(st, (ast.Expr, ast.Assign, ast.AnnAssign,
                                ast.Return, ast.AugAssign)):
             continue
